@@ -86,6 +86,7 @@ class Session:
         # takes `stderr_capacity` bytes and then every further write blocks for good.  None = unbounded sink.
         self.stderr_capacity = sess.get("stderr_capacity")
         self.streams = {}  # role -> the stream objects standing for fd 0/1/2 (filled by make_streams)
+        self.fdtable = None  # virtual descriptor table (install_fd_seams)
 
     # -- bookkeeping --------------------------------------------------------------------------
     def _violate(self, cls, msg):
@@ -361,32 +362,57 @@ class Session:
 
 
 class SimRawIn(io.RawIOBase):
-    def __init__(self, session):
+    """raw reader on a descriptor whose role is `stdin` (fd 0 or a dup of it)"""
+
+    def __init__(self, session, fd=0, closefd=False):
         self.s = session
+        self._fd = fd
+        self._closefd = closefd
+        self.name = fd
+        self.mode = "rb"
 
     def readable(self):
         return True
 
     def readinto(self, b):
-        return self.s.readinto(memoryview(b).cast("B"))
+        mv = memoryview(b).cast("B")
+        t = self.s.fdtable
+        if t is not None and not t.blocking.get(self._fd, True) and not self.s.poll_stdin():
+            return None  # what a raw non-blocking read returns when nothing is there
+        return self.s.readinto(mv)
 
     def fileno(self):
-        return 0  # reads of descriptor 0 through os.read / open(0) / select are routed here (install_fd_seams)
+        return self._fd
 
     def isatty(self):
         return False
 
+    def close(self):
+        if not self.closed and self._closefd and self.s.fdtable is not None:
+            self.s.fdtable.close(self._fd)
+        super().close()
+
 
 class SimRawOut(io.RawIOBase):
-    def __init__(self, sink, fd=None):
+    """raw writer on a descriptor; where the bytes go is looked up at write time, so that dup2() onto the descriptor
+    re-points the stream as it does for a real one"""
+
+    def __init__(self, sink, fd=None, session=None, closefd=False):
         self.sink = sink
         self._fd = fd
+        self.s = session
+        self._closefd = closefd
+        self.name = fd
+        self.mode = "wb"
 
     def writable(self):
         return True
 
     def write(self, b):
-        return self.sink(bytes(b))
+        data = bytes(b)
+        if self.s is not None and self.s.fdtable is not None and self._fd is not None:
+            return self.s.fdtable.write(self._fd, data)
+        return self.sink(data)
 
     def fileno(self):
         if self._fd is None:
@@ -396,6 +422,64 @@ class SimRawOut(io.RawIOBase):
     def isatty(self):
         return False
 
+    def close(self):
+        if not self.closed and self._closefd and self.s is not None and self.s.fdtable is not None:
+            self.s.fdtable.close(self._fd)
+        super().close()
+
+
+class FdTable:
+    """Which descriptor numbers stand for the daemon's request pipe, reply pipe and stderr pipe.  0/1/2 to begin with;
+    os.dup / os.dup2 / os.close change it the way they change a real descriptor table.  Alias numbers are real
+    descriptors (opened on /dev/null) so that they are unique in the process."""
+
+    def __init__(self, session):
+        import os
+        self.s = session
+        self.role = {0: "stdin", 1: "stdout", 2: "stderr"}
+        self.blocking = {}
+        self._real_dup, self._real_close, self._real_open = os.dup, os.close, os.open
+        self._null = os.open(os.devnull, os.O_RDWR)
+
+    def write(self, fd, data):
+        r = self.role.get(fd)
+        if r == "stdout":
+            return self.s.write_out(data)
+        if r == "stderr":
+            return self.s.write_err(data)
+        if r == "null":
+            return len(data)
+        raise OSError(9, "Bad file descriptor")
+
+    def dup(self, fd):
+        n = self._real_dup(self._null)
+        self.role[n] = self.role[fd]
+        self.blocking[n] = self.blocking.get(fd, True)
+        return n
+
+    def dup2(self, src, dst, real_dup2):
+        rs = self.role.get(src)
+        if rs is not None:
+            if dst not in (0, 1, 2) and dst not in self.role:
+                real_dup2(self._null, dst)
+            self.role[dst] = rs
+            return dst
+        # a real descriptor is put over one of ours (e.g. /dev/null over descriptor 1)
+        if dst in (0, 1, 2):
+            self.role[dst] = "null"
+        else:
+            self.role.pop(dst, None)
+            real_dup2(src, dst)
+        return dst
+
+    def close(self, fd):
+        self.role.pop(fd, None)
+        if fd not in (0, 1, 2):
+            try:
+                self._real_close(fd)
+            except OSError:
+                pass
+
 
 class SimStdin(io.TextIOWrapper):
     """the real text layer; only notes which line the daemon has been handed (so that helper
@@ -404,14 +488,10 @@ class SimStdin(io.TextIOWrapper):
     _session = None
 
     def readline(self, *a):
+        # iteration (`for line in sys.stdin`) ends up here too: for a subclass, the C implementation of __next__ calls
+        # the readline *method*
         s = super().readline(*a)
         if s and self._session is not None:
-            self._session.note_line_handed(s)
-        return s
-
-    def __next__(self):
-        s = super().__next__()
-        if self._session is not None:
             self._session.note_line_handed(s)
         return s
 
@@ -428,12 +508,6 @@ class SimStdinBuffer(io.BufferedReader):
             self._session.note_line_handed(b)
         return b
 
-    def __next__(self):
-        b = super().__next__()
-        if self._session is not None:
-            self._session.note_line_handed(b)
-        return b
-
 
 def make_streams(session, stdin_errors="surrogateescape"):
     """what CPython builds for fds 0/1/2 when they are pipes: BufferedReader/Writer + TextIOWrapper,
@@ -443,11 +517,11 @@ def make_streams(session, stdin_errors="surrogateescape"):
     buf._session = session
     stdin = SimStdin(buf, encoding="utf-8", errors=stdin_errors, newline=None)
     stdin._session = session
-    rout = SimRawOut(session.write_out, 1)
+    rout = SimRawOut(session.write_out, 1, session)
     stdout = io.TextIOWrapper(io.BufferedWriter(rout, 8192), encoding="utf-8", errors="strict", newline=None,
                               line_buffering=False, write_through=False)
 
-    rerr = SimRawOut(session.write_err, 2)
+    rerr = SimRawOut(session.write_err, 2, session)
     session.streams["stdin"] = [stdin, stdin.buffer, rin]
     session.streams["stdout"] = [stdout, stdout.buffer, rout]
     stderr = io.TextIOWrapper(io.BufferedWriter(rerr, 8192), encoding="utf-8", errors="backslashreplace",
@@ -457,85 +531,159 @@ def make_streams(session, stdin_errors="surrogateescape"):
 
 
 def install_fd_seams(world, session, stdin, stdout, stderr):
-    """Descriptor-level access to the daemon's standard streams: os.read(0), os.write(1|2), open(0|1|2, ...),
-    os.fdopen(0|1|2), select.select on them.  They reach the same simulated pipes as sys.stdin / sys.stdout."""
+    """Descriptor-level access to the daemon's standard streams: os.read / os.write / os.dup / os.dup2 / os.close /
+    os.fstat / os.set_blocking on descriptors 0, 1, 2 and their duplicates, open(fd, ...), os.fdopen, io.FileIO(fd),
+    select.select on them.  They reach the same simulated pipes as sys.stdin / sys.stdout / sys.stderr."""
     import builtins
     import os
     import select
 
-    real_read, real_write = os.read, os.write
-    raw_in = stdin.buffer.raw
+    table = FdTable(session)
+    session.fdtable = table
+    real = {n: getattr(os, n) for n in ("read", "write", "dup", "dup2", "close", "fstat", "set_blocking", "get_blocking", "isatty")}
+    fifo_stat = real["fstat"](0)  # descriptor 0 of a run fork is a real pipe
 
     def sim_read(fd, n):
-        if fd == 0:
+        if table.role.get(fd) == "stdin":
+            if not table.blocking.get(fd, True) and not session.poll_stdin():
+                raise BlockingIOError(11, "Resource temporarily unavailable")
             buf = bytearray(n)
             k = session.readinto(memoryview(buf))
             return bytes(buf[:k])
-        return real_read(fd, n)
+        return real["read"](fd, n)
 
     def sim_write(fd, data):
-        if fd == 1:
-            return session.write_out(bytes(data))
-        if fd == 2:
-            return session.write_err(bytes(data))
-        return real_write(fd, data)
+        if fd in table.role:
+            return table.write(fd, bytes(data))
+        return real["write"](fd, data)
 
-    os.read, os.write = sim_read, sim_write
+    def sim_dup(fd):
+        if fd in table.role:
+            world.probe("dup-of-standard-descriptor")
+            return table.dup(fd)
+        return real["dup"](fd)
 
-    def layer(fd, mode, buffering, kw):
-        text = "b" not in mode
-        if fd == 0:
+    def sim_dup2(fd, fd2, inheritable=True):
+        if fd in table.role or fd2 in table.role or fd2 in (0, 1, 2):
+            world.probe("dup2-on-standard-descriptor")
+            return table.dup2(fd, fd2, real["dup2"])
+        return real["dup2"](fd, fd2, inheritable)
+
+    def sim_close(fd):
+        if fd in table.role:
+            return table.close(fd)
+        return real["close"](fd)
+
+    def sim_fstat(fd):
+        if fd in table.role:
+            return fifo_stat
+        return real["fstat"](fd)
+
+    def sim_set_blocking(fd, flag):
+        if fd in table.role:
+            table.blocking[fd] = bool(flag)
+            return None
+        return real["set_blocking"](fd, flag)
+
+    def sim_get_blocking(fd):
+        if fd in table.role:
+            return table.blocking.get(fd, True)
+        return real["get_blocking"](fd)
+
+    def sim_isatty(fd):
+        if fd in table.role:
+            return False
+        return real["isatty"](fd)
+
+    os.read, os.write, os.dup, os.dup2, os.close = sim_read, sim_write, sim_dup, sim_dup2, sim_close
+    os.fstat, os.set_blocking, os.get_blocking, os.isatty = sim_fstat, sim_set_blocking, sim_get_blocking, sim_isatty
+
+    def raw_for(fd, mode, closefd):
+        role = table.role.get(fd)
+        if role == "stdin":
             if "r" not in mode and "+" not in mode:
                 raise OSError(9, "Bad file descriptor")
-            if not text:
-                return raw_in if buffering == 0 else stdin.buffer
-            if not kw.get("encoding") and not kw.get("errors") and kw.get("newline") is None:
-                return stdin
-            w = SimStdin(stdin.buffer, encoding=kw.get("encoding") or "utf-8", errors=kw.get("errors") or stdin.errors, newline=kw.get("newline"))
-            w._session = session
-            return w
-        stream = stdout if fd == 1 else stderr
-        if not text:
-            return stream.buffer.raw if buffering == 0 else stream.buffer
-        return io.TextIOWrapper(stream.buffer, encoding=kw.get("encoding") or "utf-8", errors=kw.get("errors") or "strict",
-                                newline=kw.get("newline"), line_buffering=(buffering == 1), write_through=False)
+            r = SimRawIn(session, fd, closefd)
+        else:
+            r = SimRawOut(None, fd, session, closefd)
+        session.streams.setdefault(role if role in ("stdin", "stdout", "stderr") else "stdout", []).append(r)
+        return r
 
-    real_open, real_fdopen = builtins.open, os.fdopen
+    def layer(fd, mode, buffering, kw, closefd=True):
+        text = "b" not in mode
+        raw = raw_for(fd, mode, closefd)
+        if not text and buffering == 0:
+            return raw
+        size = buffering if isinstance(buffering, int) and buffering > 1 else 8192
+        if isinstance(raw, SimRawIn):
+            buf = SimStdinBuffer(raw, size)
+            buf._session = session
+        else:
+            buf = io.BufferedWriter(raw, size)
+        session.streams.setdefault(table.role.get(fd) if table.role.get(fd) != "null" else "stdout", []).append(buf)
+        if not text:
+            return buf
+        if isinstance(raw, SimRawIn):
+            w = SimStdin(buf, encoding=kw.get("encoding") or "utf-8", errors=kw.get("errors") or stdin.errors, newline=kw.get("newline"))
+            w._session = session
+        else:
+            w = io.TextIOWrapper(buf, encoding=kw.get("encoding") or "utf-8", errors=kw.get("errors") or "strict",
+                                 newline=kw.get("newline"), line_buffering=(buffering == 1), write_through=False)
+        session.streams.setdefault(table.role.get(fd) if table.role.get(fd) != "null" else "stdout", []).append(w)
+        return w
+
+    real_open, real_fdopen, real_FileIO = builtins.open, os.fdopen, io.FileIO
 
     def sim_open(file, mode="r", buffering=-1, encoding=None, errors=None, newline=None, closefd=True, opener=None):
-        if isinstance(file, int) and not isinstance(file, bool) and file in (0, 1, 2):
+        if isinstance(file, int) and not isinstance(file, bool) and file in table.role:
             world.probe("open-of-standard-descriptor")
-            return layer(file, mode, buffering, {"encoding": encoding, "errors": errors, "newline": newline})
+            return layer(file, mode, buffering, {"encoding": encoding, "errors": errors, "newline": newline}, closefd)
         return real_open(file, mode, buffering, encoding, errors, newline, closefd, opener)
 
     def sim_fdopen(fd, mode="r", buffering=-1, encoding=None, *a, **k):
-        if isinstance(fd, int) and fd in (0, 1, 2):
+        if isinstance(fd, int) and fd in table.role:
             return sim_open(fd, mode, buffering, encoding, *a, **k)
         return real_fdopen(fd, mode, buffering, encoding, *a, **k)
 
+    def sim_FileIO(file, mode="r", closefd=True, opener=None):
+        if isinstance(file, int) and not isinstance(file, bool) and file in table.role:
+            world.probe("open-of-standard-descriptor")
+            return raw_for(file, mode if "b" in mode else mode + "b", closefd)
+        return real_FileIO(file, mode, closefd, opener)
+
     builtins.open = sim_open
     io.open = sim_open
+    io.FileIO = sim_FileIO
     os.fdopen = sim_fdopen
 
     real_select = select.select
 
-    def is_stdin(x):
-        return x == 0 if isinstance(x, int) else session.stream_role(x) == "stdin"
+    def role_of(x):
+        if isinstance(x, int):
+            return table.role.get(x)
+        r = session.stream_role(x)
+        if r is None and hasattr(x, "fileno"):
+            try:
+                return table.role.get(x.fileno())
+            except (OSError, ValueError):
+                return None
+        return r
 
     def sim_select(rlist, wlist, xlist, timeout=None):
-        if not any(is_stdin(x) for x in rlist):
-            if any((isinstance(x, int) and x in (1, 2)) or (not isinstance(x, int) and session.stream_role(x)) for x in list(wlist)):
-                return [], list(wlist), []
+        ours_r = [x for x in rlist if role_of(x) == "stdin"]
+        ours_w = [x for x in wlist if role_of(x) in ("stdout", "stderr", "null")]
+        if not ours_r and not ours_w:
             return real_select(rlist, wlist, xlist, timeout)
-        others = [x for x in rlist if not is_stdin(x)]
-        if others:
-            raise_unmodelled("select.select on the standard input together with other descriptors")
+        if len(ours_r) != len(rlist) or len(ours_w) != len(wlist) or xlist:
+            raise_unmodelled("select.select on the standard streams together with other descriptors")
+        if ours_w:
+            return ([x for x in ours_r if session.poll_stdin()], list(ours_w), [])
         if not session.poll_stdin():
             if timeout is not None and timeout <= 0:
-                return [], list(wlist), []
+                return [], [], []
             session.blocks += 1
             world.sched.block(on="stdin", timeout=timeout, stdin=True)
-        return ([x for x in rlist if is_stdin(x)] if session.poll_stdin() else []), list(wlist), []
+        return (list(ours_r) if session.poll_stdin() else []), [], []
 
     def raise_unmodelled(what):
         from .seams_base import Unmodelled
